@@ -22,6 +22,7 @@ def run(ctx, repo):
     RO.r_event_demand(ctx, repo)
     RX.r_single_read(ctx, repo)
     RX.r_dispose_chain(ctx, repo, ['loader.BaseLoader', 'loader.SafeLoader', 'loader.FullLoader', 'loader.Loader', 'loader.UnsafeLoader', 'cyaml.CBaseLoader', 'cyaml.CSafeLoader', 'cyaml.CFullLoader', 'cyaml.CLoader', 'cyaml.CUnsafeLoader'])
+    RX.r_no_memo(ctx, repo)
 
 if __name__ == '__main__':
     sys.exit(report.main('C18', 'other', run))
